@@ -291,6 +291,7 @@ def c02(tier):
     kb.kb4(P, C)
     # derivatives in the margins use the same re-indexing as values: both margins must be reachable for every admitted table
     kb.kb2b(P, C)
+    kb.kb7(P, C)
     dp.cl3(P, C)
     dp.cl4(P, C)
     dp.cl6(P, C)
